@@ -1,5 +1,5 @@
 CHECK = {
-    "suites": [suite("requests", "c12", 2500, 40000, stdin=True, timeout={"quick": 600, "thorough": 2400})],
+    "suites": [suite("requests", "c12", 4000, 40000, stdin=True, timeout={"quick": 600, "thorough": 2400})],
     "gen": [{"pkg": "extract_c12", "out": "lean/ClusterVerif/Gen/C12.lean"}],
     "lean_sources": ["ClusterVerif/Model/C12.lean", "ClusterVerif/Spec/C12.lean", "ClusterVerif/Lemmas/C12.lean",
                      "ClusterVerif/Gen/C12.lean"],
